@@ -603,12 +603,13 @@ Proof.
     destruct (snd (arg_tls a)) as [|c0 sep0].
     + ok_inj He. rewrite safe_ok_vstr. apply str_add_ok; assumption.
     + destruct (rpartition (snd (tls_plain v)) (c0 :: sep0)) as [[before after]|] eqn:E.
-      * apply rpartition_incl in E as [Hbf Haf]. destruct before as [|b0 before].
-        -- ok_inj He. rewrite safe_ok_vstr. exact Hsv.
+      * apply rpartition_incl in E as [Hbf Haf].
+        destruct (fix_rpartition_found L || negb (is_nil before)).
         -- ok_inj He. rewrite safe_ok_vstr. apply str_add_ok; [apply str_add_ok|].
            ++ apply m_ok_keep; [exact Hsv|apply Clean_incl, Hbf].
            ++ exact Hb.
            ++ apply m_ok_keep; [exact Hsv|apply Clean_incl, Haf].
+        -- ok_inj He. rewrite safe_ok_vstr. exact Hsv.
       * ok_inj He. rewrite safe_ok_vstr. exact Hsv.
   - (* remove *) ok_inj He. rewrite safe_ok_vstr. apply f_replace_ok; [exact Hsv|reflexivity].
   - ok_inj He. rewrite safe_ok_vstr. apply f_replace_ok; [exact Hsv|reflexivity].
@@ -616,11 +617,12 @@ Proof.
     destruct (snd (arg_tls a)) as [|c0 sep0].
     + ok_inj He. rewrite safe_ok_vstr. exact Hsv.
     + destruct (rpartition (snd (tls_plain v)) (c0 :: sep0)) as [[before after]|] eqn:E.
-      * apply rpartition_incl in E as [Hbf Haf]. destruct before as [|b0 before].
-        -- ok_inj He. rewrite safe_ok_vstr. exact Hsv.
+      * apply rpartition_incl in E as [Hbf Haf].
+        destruct (fix_rpartition_found L || negb (is_nil before)).
         -- ok_inj He. rewrite safe_ok_vstr. apply str_add_ok.
            ++ apply m_ok_keep; [exact Hsv|apply Clean_incl, Hbf].
            ++ apply m_ok_keep; [exact Hsv|apply Clean_incl, Haf].
+        -- ok_inj He. rewrite safe_ok_vstr. exact Hsv.
       * ok_inj He. rewrite safe_ok_vstr. exact Hsv.
   - (* slice *) ok_inj He. apply f_slice_ok, Hv.
   - (* split *)
@@ -1158,6 +1160,9 @@ Proof.
   exact IH.
 Qed.
 
+Lemma is_nil_untag s : is_nil (untag s) = is_nil s.
+Proof. destruct s; reflexivity. Qed.
+
 Lemma untag_nil_iff s : untag s = [] <-> s = [].
 Proof. destruct s; split; intro H; try reflexivity; discriminate. Qed.
 
@@ -1184,10 +1189,9 @@ Proof.
     + cbn [untag map]. change (untag1 c0 :: map untag1 sep0) with (untag (c0 :: sep0)).
       fold (untag (snd (tls_plain v))). rewrite rpartition_untag.
       destruct (rpartition (snd (tls_plain v)) (c0 :: sep0)) as [[before after]|]; [|reflexivity].
-      cbn [option_map untag_pair fst snd]. destruct before as [|b0 before]; [reflexivity|].
-      change (untag (b0 :: before)) with (untag1 b0 :: untag before).
-      change (untag1 b0 :: untag before) with (untag (b0 :: before)).
-      change (fst (tls_plain v), untag (b0 :: before)) with (untag_m (fst (tls_plain v), b0 :: before)).
+      cbn [option_map untag_pair fst snd]. rewrite is_nil_untag.
+      destruct (fix_rpartition_found L || negb (is_nil before)); [|reflexivity].
+      change (fst (tls_plain v), untag before) with (untag_m (fst (tls_plain v), before)).
       change (fst (tls_plain v), untag after) with (untag_m (fst (tls_plain v), after)).
       rewrite !str_add_untag. reflexivity.
   - change (false, @nil N) with (untag_m (false, [])). rewrite f_replace_untag. reflexivity.
@@ -1198,10 +1202,9 @@ Proof.
     + cbn [untag map]. change (untag1 c0 :: map untag1 sep0) with (untag (c0 :: sep0)).
       fold (untag (snd (tls_plain v))). rewrite rpartition_untag.
       destruct (rpartition (snd (tls_plain v)) (c0 :: sep0)) as [[before after]|]; [|reflexivity].
-      cbn [option_map untag_pair fst snd]. destruct before as [|b0 before]; [reflexivity|].
-      change (untag (b0 :: before)) with (untag1 b0 :: untag before).
-      change (untag1 b0 :: untag before) with (untag (b0 :: before)).
-      change (fst (tls_plain v), untag (b0 :: before)) with (untag_m (fst (tls_plain v), b0 :: before)).
+      cbn [option_map untag_pair fst snd]. rewrite is_nil_untag.
+      destruct (fix_rpartition_found L || negb (is_nil before)); [|reflexivity].
+      change (fst (tls_plain v), untag before) with (untag_m (fst (tls_plain v), before)).
       change (fst (tls_plain v), untag after) with (untag_m (fst (tls_plain v), after)).
       rewrite !str_add_untag. reflexivity.
   - (* slice *) rewrite f_slice_untag. reflexivity.
@@ -1444,7 +1447,8 @@ Qed.
 (** [lib_ok] is satisfiable. *)
 Definition lib_id : lib :=
   {| strip_tags_fn := fun s => s; html_unescape_fn := fun s => s;
-     unquote_fn := fun s => s; json_fn := tls_text |}.
+     unquote_fn := fun s => s; json_fn := tls_text;
+     fix_truncate_clamp := false; fix_rpartition_found := false |}.
 Example lib_id_ok : lib_ok lib_id.
 Proof.
   constructor; try reflexivity.
